@@ -30,7 +30,7 @@ fn array_to_datetime<V: ValT>(v: &[V]) -> Option<Result<DateTime, jiff::Error>> 
     let i8 = |v: &V| -> Option<i8> { v.as_isize()?.try_into().ok() };
     Some(DateTime::new(
         year.as_isize()?.try_into().ok()?,
-        i8(month)? + 1,
+        i8(month)?.checked_add(1)?,
         i8(day)?,
         i8(hour)?,
         i8(min)?,
